@@ -112,12 +112,27 @@ Proof.
   induction s as [|b s IH]; [reflexivity|]. cbn [map concat]. rewrite escaped_ok_esc. exact IH.
 Qed.
 
+Lemma esc_nl : forall b, ~ In x0a (esc b).
+Proof.
+  intros b Hin. destruct b; cbn in Hin; repeat (destruct Hin as [Hin|Hin]; [discriminate Hin|]); destruct Hin.
+Qed.
+
+Lemma quote_g_nl : forall s, ~ In x0a (quote_g s).
+Proof.
+  intros s Hin. unfold quote_g in Hin. destruct Hin as [Hin|Hin]; [discriminate|].
+  apply in_app_or in Hin. destruct Hin as [Hin|Hin].
+  - apply in_concat in Hin. destruct Hin as [x [Hx Hc]]. apply in_map_iff in Hx. destruct Hx as [b [Hb _]]. subst x.
+    exact (esc_nl _ Hc).
+  - destruct Hin as [Hin|[]]. discriminate.
+Qed.
+
 Lemma quote_laws_g : forall pt ft pf ff, quote_laws (mkOracles unquote_g quote_g pt ft pf ff).
 Proof.
   intros. constructor; cbn.
   - exact unquote_quote_g.
   - intros s. exists (concat (map esc s)). split; [reflexivity | apply escaped_ok_body].
   - exact quote_g_ws.
+  - exact quote_g_nl.
 Qed.
 
 (* ---- unbounded decimal integers *)
@@ -198,8 +213,9 @@ Definition parse_float_g (s : str) : option N :=
 
 Lemma float_ok_g : forall uq q pt ft b, float_ok (mkOracles uq q pt ft parse_float_g fmt_float_g) b.
 Proof.
-  intros uq q pt ft b. unfold float_ok. cbn [o_parse_float o_fmt_float]. unfold parse_float_g, fmt_float_g.
-  rewrite parse_Z_fmt. destruct (0 <=? Z.of_N b)%Z eqn:E; [rewrite N2Z.id; reflexivity | lia].
+  intros uq q pt ft b. unfold float_ok. cbn [o_parse_float o_fmt_float]. unfold parse_float_g, fmt_float_g. split.
+  - rewrite parse_Z_fmt. destruct (0 <=? Z.of_N b)%Z eqn:E; [rewrite N2Z.id; reflexivity | lia].
+  - intros H. apply fmt_int_alpha in H. destruct H as [H|H]; [discriminate | cbn in H; lia].
 Qed.
 
 Definition model_library : oracles := mkOracles unquote_g quote_g parse_time_g fmt_time_g parse_float_g fmt_float_g.
